@@ -146,9 +146,17 @@ class SetOwnerProcess(Contract):
     def raises(self, c):
         return []          # a privileged process can always switch: nothing may escape (NameError / EPERM would be a defect)
 
+    def modifies(self, c):
+        return [("ghost", n) for n in IDS + ("groups",)]
+
     def post(self, c):
         g = c.st.ghost
         uid, gid = c.a["uid"].t, c.a["gid"].t
+        if c.mode == "call":
+            ig = c.ex.truth(c.a["initgroups"], c.st)
+            return [("real-effective-saved-gid==configured-gid", And(g["rgid"] == gid, g["egid"] == gid, g["sgid"] == gid)),
+                    ("real-effective-saved-uid==configured-uid", And(g["ruid"] == uid, g["euid"] == uid, g["suid"] == uid)),
+                    ("initgroups-off=>supplementary-groups-untouched", Implies(Not(ig), g["groups"] == c.old.ghost["groups"]))]
         calls = g["calls"]
         order_ok = True
         seen_setuid = False
